@@ -16,6 +16,7 @@ EXPLANATION = ('fracture: returns immediately for max_points <= 4; the final loo
                'intersection with non-zero fill, positions are rounded with llround(scaling x position). The three vertex-limit '
                'blocks of Cell::to_gds are clones and route every piece through Polygon::to_gds. Region preservation, non-overlap, '
                'termination of re-slicing and the vertex bound are not decided (value dependent).')
+ADVISORY = [('R-DEP', r'^slice/strip-chaining')]
 ASSUMPTIONS = ['Clipper intersection semantics (external)']
 XREF_FILES = ['src/polygon.cpp', 'src/clipper_tools.cpp', 'src/cell.cpp']
 norm = C05.norm
